@@ -43,6 +43,39 @@ def run(ctx, chk):
     r5(ctx, chk)
     from .c13 import previous_locales_flag_rule
     previous_locales_flag_rule(ctx, chk, "C03.R6")
+    r7(ctx, chk)
+
+
+def r7(ctx, chk):
+    """the per-language tables kept for the life of the process (LocaleDataLoader._loaded_languages, the data modules'
+    `info`) are never mutated through an alias: a Locale gets a private copy"""
+    rule = "C03.R7"
+    ix = ctx.ix
+    ld = ix.func("dateparser.languages.loader:LocaleDataLoader._load_data")
+
+    def is_source(e, f):
+        if f is not ld:
+            return False
+        if isinstance(e, ast.Subscript) and ast.unparse(e.value) == "self._loaded_languages":
+            return True
+        if isinstance(e, ast.Call) and isinstance(e.func, ast.Name) and e.func.id == "getattr" and e.args \
+                and isinstance(e.args[0], ast.Call) and ast.unparse(e.args[0].func) == "import_module":
+            return True
+        return False
+    t = Taint(ctx, is_source)
+    n_src = sum(1 for n in iter_own_nodes(ld.node) if is_source(n, ld))
+    chk.floor(rule, n_src, 2, "reads of the process-wide language tables in _load_data")
+    sinks = t.mutation_sinks(None)
+    for f, node, what in sinks:
+        chk.ob(rule, "%s: %s" % (f.key, what), False,
+               "in-place mutation of a table shared by every locale of the language for the rest of the process (%s): what a later "
+               "locale of that language knows then depends on which locales were used before" % what,
+               key={"function": f.key, "construct": " ".join(ast.unparse(node).split())[:120]}, file=f.file, function=f.qual,
+               line=node.lineno, text=ast.unparse(node)[:160])
+    chk.ob(rule, "no mutation reaches an alias of the process-wide language tables (%d aliasing places examined)" % (len(t.vars) + len(t.fields)), not sinks,
+           "", key={"construct": "language tables immutable"}, file=ld.file, function=ld.qual, line=ld.node.lineno)
+    chk.sample({"rule": rule, "aliases": ["%s.%s" % (k[0].split(":")[1], k[1]) for k in sorted(t.vars)][:12],
+                "fields": ["%s.%s" % (k[0].split(":")[1], k[1]) for k in sorted(t.fields)]})
 
 
 # ---------------------------------------------------------------------------
